@@ -339,7 +339,8 @@ def cross_main(args):
     done = {}
     try:
         with concurrent.futures.ThreadPoolExecutor(args.jobs) as ex:
-            futs = [ex.submit(cross_check, m, [p for p in dict.fromkeys(pbf.get(m["file"], [])) if p != m["prop"]])
+            # (the property's own check first: it may have been extended since the first phase)
+            futs = [ex.submit(cross_check, m, [m["prop"]] + [p for p in dict.fromkeys(pbf.get(m["file"], [])) if p != m["prop"]])
                     for m in src.values()]
             for i, f in enumerate(concurrent.futures.as_completed(futs)):
                 r = f.result()
@@ -354,6 +355,9 @@ def cross_main(args):
         if key(r) in done:
             r["caught_by"] = done[key(r)]["caught_by"]
             r["caught_by_violated"] = done[key(r)].get("caught_by_violated", "")
+            if r["caught_by"] == r["prop"]:
+                r["verdict"], r["violated"] = "caught", r.pop("caught_by_violated")
+                del r["caught_by"]
     json.dump(allr, open(path, "w"), indent=1)
     write_md(allr)
     print("cross-check: %d caught by another property's check, %d by none" % (
